@@ -28,6 +28,9 @@ def mk_link(name, N=2, lanes=2, cls=None):
     return M.Link(N, lanes, 1.0, 180.0, 33.5, 102.0, 1.867, name=name)
 
 
+SAME_NAME = (lambda lab: "x")
+
+
 class Universe:
     """Fresh real objects with labels.  `spec` maps label -> constructor description:
     nodes: 'node'; links: 'link'; origins: ('origin', kind); destinations: ('dest', kind);
@@ -42,7 +45,8 @@ class Universe:
             if what == "node":
                 o = M.Node(name=nm(lab))
             elif what == "link":
-                o = mk_link(nm(lab))
+                # links of the universes differ in segments and lanes; the last one is a single-lane, single-segment link
+                o = mk_link(nm(lab), N=1, lanes=1) if lab.endswith("2") else mk_link(nm(lab))
             elif what[0] == "origin":
                 o = ORIGIN_KINDS[what[1]](nm(lab))
             elif what[0] == "dest":
